@@ -95,6 +95,7 @@ def expand_source_blocks(
                 # can be no attractors here because we are just fixing the source nodes.
                 sd.node_data(node)["expanded"] = True
                 sd.node_data(node)["attractor_seeds"] = []
+                sd.node_data(node)["attractor_candidates"] = []
                 sd.node_data(node)["attractor_sets"] = []
 
                 # This node is done, more work will be done at the next level.
